@@ -403,6 +403,7 @@ package http2
 //@ # (index < 2^21 + prefix, which covers every table index and every string shorter than 2 MiB);
 //@ # above that only the shape (cont, declen, short) is proved
 //@ ensures decval: d < 2097152 ==> spec.intVal(r0[last:], bits) == index
+//@ bounded decval, bits7_2, bits7_3: the decoded value and the payload bits of the 2nd and 3rd continuation octet are proved for index - (2^N - 1) < 2^21 only (at most three continuation octets)
 //@ ensures short: len(r0) - last <= 11
 
 //@ macro dynplace(hp) = cap(hp.dynamic) == 0 || (cap(old(hp.dynamic)) > 0 && samearray(hp.dynamic, old(hp.dynamic))) || fresh(hp.dynamic)
